@@ -26,6 +26,9 @@ FMETAS = [{'path': 'f'}, {'path': 'g', 'revision': {'old': 'a', 'new': 'b'}},
           META_BY_NAME['semantic']]
 METAS.append(META_BY_NAME['degenerate-pairs'])
 METAS.append(META_BY_NAME['spellings'])
+METAS.append(META_BY_NAME['inconsistent-stats'])
+FMETAS.append(META_BY_NAME['inconsistent-stats'])
+METAS.append(META_BY_NAME['key-order'])
 FMETAS.append(META_BY_NAME['spellings'])
 DIFFS = [None, b'a\n', b'a', SAMPLE_DIFF, b'a\r\nb\r\n', b'a\r\nb\n',
          b'\x00\xff\n', b'#..file:\n', b'', 'x\n'.encode('utf-16'),
